@@ -294,6 +294,20 @@ def rule_p3(ctx, F):
         ctx.ok("P3", "run_tests:corrections-only-appended", "the list handed to write_tests is only pushed to, read and cleared (%d operations)" % len(ops))
 
 
+def rule_p4(ctx, F):
+    """P4: the expected output of a `:cst` test is not an S-expression and is never pretty-printed as one.  Wherever
+    run_tests passes a test's *stored* output through format_sexp (to write the test back, or to compare), the test was
+    found not to be a `:cst` test — also for tests that are only copied through because a filter excluded them."""
+    import rsrules
+    from rsrules import text_gate, deep_text
+    fn = ctx.need_fn(F, "test::run_tests", "P4")
+    if not fn:
+        return
+    fmt = [pt for pt, c, d in calls_named(fn, "format_sexp") if "as:Example).output" in deep_text(fn, c["a"][0], user=True)]
+    ctx.floor("format_sexp calls on a test's stored output in run_tests", len(fmt), 5)
+    text_gate(ctx, "P4", fn, fmt, [("the stored output is re-formatted only for a test that is not :cst", [((".cst",), False), (("cst",), False)])], accept_desc="re-formatting a test's stored expected output")
+
+
 def rule_p2(ctx, F):
     """P2: a corpus file is rewritten only from the *complete* list of its tests: write_tests is reached
     only after the loop over the group's children ran to exhaustion (a fail-fast stop must leave the
@@ -591,6 +605,7 @@ def run(ctx):
     rule_w1(ctx, F)
     rule_p2(ctx, F)
     rule_p3(ctx, F)
+    rule_p4(ctx, F)
     return ctx.finish(
         "Field-flow, taint and path-counting rules over rustc MIR of crates/cli/src/test.rs: each TestCorrection is built from the entry's own name/input/attributes/delimiter lengths; "
         "the writer reads every field; with --update each Example path to Ok(true) records exactly one correction; the recognised delimiter suffix must reach the entry. "
